@@ -840,3 +840,8 @@ VARIANTS['C20'] += [
       [(BRF, "        if self.reader.tell() != (bucket + self.offset):\n            self.reader.seek(bucket + self.offset, io.SEEK_SET)\n",
         "        file_pos = bucket + self.offset\n        if self.reader.tell() != file_pos:\n            self.reader.seek(file_pos, io.SEEK_SET)\n")], None),
 ]
+
+VARIANTS['C10'] += [
+    V('mehd deleted by a path that does not exist (fix 60282d5 reverted)',
+      [(MRQ, "                del atom.moov.mvex.mehd\n", "                del atom.moov.mehd\n")], 'R10.6', 'generate_init_segment'),
+]
